@@ -81,3 +81,12 @@ def streams(tier, rng):
     L = 5 if tier == 'quick' else 6
     yield {'name': 'exhaustive-len<=%d' % L, 'op': 'C03', 'cases': genlib.strings_upto(ALPHABET, L), 'exhaustive': True}
     yield {'name': 'random', 'op': 'C03', 'cases': random_cases(rng, 10000 if tier == 'quick' else 200000)}
+
+TECHNIQUE = 'Lean 4 theorem over all Unicode strings (model of from_string vs policy grammar) + exhaustive small-scope correspondence'
+LEVEL_TEXT = ('Props.C03.sound_partial: for every Unicode string (any length) the model of Version.from_string accepts only '
+              'policy-valid strings, splits them at the first colon / last hyphen, rejects with ValueError only, and accepts '
+              'every valid string ending in alphanumerics - proved in Lean 4, hypothesis: epoch convertible by int() (finding K2). '
+              'The model is tied to the code by exhaustive correspondence on all strings of length <= 5 (quick) / <= 6 (thorough) '
+              'over a 13-symbol class alphabet plus random streams; holdsOn is also evaluated on every implementation observation.')
+LEVEL_NOTE = ('Trusted: Lean kernel; axioms propext, Classical.choice, Quot.sound only; the hand recogniser for the validity '
+              'regex and str.strip are modelled and tied by correspondence, not verified against CPython; K2 (epoch > 4300 digits) is a known finding.')
